@@ -269,6 +269,26 @@ fn run(ctx: &mut Ctx) {
             c.count("executions", 1);
         });
     }
+    // 3d. calls whose callee is itself computed (a call that returns a function, an element of an array of functions, a
+    // field holding a function, an if-expression) next to effectful arguments: callee first, then the arguments left to
+    // right (added after a seeded change that named the callee after its arguments in ANF; C09 has the operand-position
+    // product, this is the plain behavioural twin in C01's own workload)
+    if ctx.mine(799_998) {
+        let src = "struct Hd { f: (int32) -> int32 }\nfn inc(x: int32) -> int32 { x + 1 }\nfn dbl(x: int32) -> int32 { x * 2 }\nfn pickf(r: Ref[int32], b: bool) -> (int32) -> int32 {\n    let _ = string_println(\"callee\");\n    let _ = ref_set(r, ref_get(r) * 2);\n    if b { inc } else { dbl }\n}\nfn nexti(r: Ref[int32]) -> int32 {\n    let _ = string_println(\"index\");\n    let _ = ref_set(r, ref_get(r) * 3);\n    1\n}\nfn operand(r: Ref[int32]) -> int32 {\n    let _ = string_println(\"argument\");\n    let _ = ref_set(r, ref_get(r) + 5);\n    ref_get(r)\n}\nfn holder(r: Ref[int32]) -> Hd {\n    let _ = string_println(\"holder\");\n    let _ = ref_set(r, ref_get(r) * 2);\n    Hd { f: dbl }\n}\nfn main() -> unit {\n    let r = ref(1);\n    let v = pickf(r, true)(operand(r));\n    let _ = string_println(int32_to_string(v) + \" \" + int32_to_string(ref_get(r)));\n    let fs: [(int32) -> int32; 2] = [inc, dbl];\n    let w = array_get(fs, nexti(r))(operand(r));\n    let _ = string_println(int32_to_string(w) + \" \" + int32_to_string(ref_get(r)));\n    let u = (if ref_get(r) > 0 { pickf(r, false) } else { inc })(operand(r));\n    let _ = string_println(int32_to_string(u) + \" \" + int32_to_string(ref_get(r)));\n    let h = holder(r).f;\n    let t = h(operand(r));\n    let _ = string_println(int32_to_string(t) + \" \" + int32_to_string(ref_get(r)));\n    ()\n}\n";
+        // r: 1 -> callee 2 -> argument 7: inc(7) = 8 | index 21 -> argument 26: dbl(26) = 52 | callee 52 -> argument 57: dbl(57) = 114
+        // | holder 114 -> argument 119: dbl(119) = 238
+        let expected = "callee\nargument\n8 7\nindex\nargument\n52 26\ncallee\nargument\n114 57\nholder\nargument\n238 119\n";
+        ctx.case("computed-callee-order", |c| {
+            if let Some((out, term, stderr)) = crate::exec::run_source(c, "C01", "computed-callee-order", src, 1_000_000) {
+                if out == expected && matches!(term, crate::goexec::Term::Ok) {
+                    c.count("computed_callee_programs_ok", 1);
+                    c.count("executions", 1);
+                } else {
+                    c.violation("C01:stdout-differs:computed-callee".to_string(), format!("a program with computed callees prints {:?} ({:?} {}), expected {:?}", out, term, util::truncate(&stderr, 80), expected), json!({"source": src, "expected": expected, "got": out}));
+                }
+            }
+        });
+    }
     // 3b. user functions named like Go's predeclared functions and types, with effects, results discarded in three
     // ways, and (for the Vec-shaped ones) next to the builtin vec operations that are emitted under those Go names
     {
